@@ -216,4 +216,11 @@ def run (H : Str → Str) (side : Side) (ex : List Str) : Input → Outcome
 def runTxn (H : Str → Str) (ex : List Str) (reqBody respBody : Input) : Outcome × Outcome :=
   (run H .req ex reqBody, run H .resp ex respBody)
 
+/-- Several `ObfuscateJSON` calls (each with its own exclusion list and body) that overlap in time in
+    any way — one started from inside another (re-entrant, e.g. from the hasher), or on concurrent
+    goroutines.  The calls share nothing observable (the pooled parser / arena a call uses is its own
+    until it returns): each answer is the function of that call's own arguments only. -/
+def runMany (H : Str → Str) (calls : List (List Str × Input)) : List Outcome :=
+  calls.map (fun c => run H .raw c.1 c.2)
+
 end LunarVerif.C16
